@@ -5,7 +5,8 @@
 //! (c) model `parseFlow` == `serde_yaml::from_str::<TestCaseConfig>` on rendered and on
 //!     grammar-generated flow mappings (serde_yaml/libyaml themselves are trusted);
 //! front-matter (`serde_yaml::to_string(&DocumentConfig)` -> `from_str`) and the code-fence
-//! embedding (`MarkdownTestCaseGenerator` -> `MarkdownParser`) are oracle-only.
+//! embedding (`MarkdownTestCaseGenerator` -> `MarkdownParser`) are oracle-only, and so is the front-matter
+//! on its way through `MarkdownParser::parse` (stream `frontmatter-through-parser`).
 use crate::common::*;
 use scrut::config::{DocumentConfig, OutputStreamControl, TestCaseConfig, TestCaseWait};
 use scrut::escaping::Escaper;
@@ -502,6 +503,157 @@ fn frontmatter_case(prop: &str, d: &DocumentConfig) -> CaseRec {
     CaseRec { op: format!("durfmt {} {}", tt.as_secs(), tt.subsec_nanos()), impl_out: hx(&humantime::format_duration(tt).to_string()), oracle_fail: keep(prop, fails), nontrivial: !d.defaults.is_empty(), tags: vec![tag.to_string()] }
 }
 
+/// strings whose YAML block form is a block scalar that ends in a line break (`|`, `|+`, with or without indentation
+/// indicator)
+const NL_STRINGS: &[&str] = &["hello\n", "a\nb\n", "x\n\n", "\n", " lead\n", "tab\there\n", "é\n", "#c\n", "a: b\n", "- x\n", "/bin/sh\n", "---\n", "a\n\nb\n", "```\n"];
+
+/// document configurations for the stream `frontmatter-through-parser`: a string that ends in a line break (rendered
+/// as a block scalar) in every position a string can have - as the textually last entry of the front-matter
+/// (`total_timeout` = the default, which is not written; nothing behind it) and not last - plus the random configurations of `front-matter-oracle`
+fn fm_parser_config(r: &mut Rng, idx: u64) -> (DocumentConfig, String) {
+    let s = |r: &mut Rng| r.pick(NL_STRINGS).to_string();
+    let mut d = DocumentConfig::default();
+    let shape = idx % 12;
+    let tag = match shape {
+        0 => {
+            d.shell = Some(PathBuf::from(s(r)));
+            "shell-last"
+        }
+        1 => {
+            if r.chance(1, 2) {
+                d.prepend.push(PathBuf::from(rand_name(r)));
+            }
+            d.prepend.push(PathBuf::from(s(r)));
+            "prepend-last"
+        }
+        2 => {
+            d.defaults.wait = Some(TestCaseWait { timeout: Duration::from_secs(r.range(1, 90) as u64), path: Some(PathBuf::from(s(r))) });
+            "wait-path-last"
+        }
+        3 => {
+            if r.chance(1, 2) {
+                d.defaults.environment.insert("A".into(), rand_string(r));
+            }
+            d.defaults.environment.insert("MSG".into(), s(r));
+            "environment-last"
+        }
+        4 => {
+            d.append.push(PathBuf::from(s(r)));
+            "append-last"
+        }
+        5 => {
+            d.shell = Some(PathBuf::from(s(r)));
+            d.total_timeout = Some(Duration::from_secs(300));
+            "shell-not-last"
+        }
+        6 => {
+            d.defaults.environment.insert("MSG".into(), s(r));
+            d.defaults.environment.insert("Z".into(), "z".into());
+            if r.chance(1, 2) {
+                d.shell = Some(PathBuf::from("/bin/sh"));
+            }
+            "environment-not-last"
+        }
+        7 => {
+            d.prepend.push(PathBuf::from(s(r)));
+            d.prepend.push(PathBuf::from("setup.md"));
+            "prepend-not-last"
+        }
+        8 => {
+            d.defaults.wait = Some(TestCaseWait { timeout: Duration::from_secs(2), path: Some(PathBuf::from(s(r))) });
+            d.shell = Some(PathBuf::from("bash"));
+            "wait-path-not-last"
+        }
+        9 => {
+            // a random configuration whose last string ends in a line break
+            d = document_config(r);
+            d.shell = Some(PathBuf::from(format!("{}\n", rand_string(r).replace('\r', ""))));
+            "random-shell-last"
+        }
+        _ => {
+            d = document_config(r);
+            "random"
+        }
+    };
+    // `total_timeout: None` is written as `total_timeout: 'null'` (behind everything else); only the default of 900 s is
+    // not written at all: that is how a string gets to be the textually last entry of what scrut renders
+    if tag.ends_with("-last") && !tag.ends_with("not-last") {
+        d.total_timeout = Some(Duration::from_secs(900));
+    }
+    (d, tag.to_string())
+}
+
+fn fm_document(yaml: &str) -> String {
+    format!("---\n{yaml}---\n\n# t\n\n```scrut\n$ true\n```\n")
+}
+
+/// what `MarkdownParser::parse` returns as the document configuration of the document that carries `yaml` as its
+/// front-matter
+fn fm_through_parser(yaml: &str) -> Result<DocumentConfig, String> {
+    let doc = fm_document(yaml);
+    let parser = MarkdownParser::new(Arc::new(ExpectationMaker::new(RuleRegistry::default())), DEFAULT_MARKDOWN_LANGUAGES, None);
+    match guarded(|| parser.parse(&doc).map(|(d, ts)| (d, ts.len())).map_err(|e| format!("{e:#}"))) {
+        Ok(Ok((d, 1))) => Ok(d),
+        Ok(Ok((_, n))) => Err(format!("{n} tests instead of one")),
+        Ok(Err(e)) => Err(e),
+        Err(p) => Err(format!("panic: {p}")),
+    }
+}
+
+/// is the textually last entry of the YAML text a block scalar (`key: |…` / `- |…` followed by nothing but its lines)?
+fn last_entry_is_block_scalar(yaml: &str) -> bool {
+    let lines: Vec<&str> = yaml.lines().collect();
+    let is_head = |l: &str| {
+        let t = l.trim_end();
+        let ind = t.rsplit(|c| c == ' ').next().unwrap_or("");
+        (ind.starts_with('|') || ind.starts_with('>')) && ind.len() <= 3 && (t.contains(": ") || t.trim_start().starts_with("- "))
+    };
+    match (0..lines.len()).rev().find(|i| is_head(lines[*i])) {
+        None => false,
+        Some(h) => {
+            let indent = lines[h].len() - lines[h].trim_start().len();
+            lines[h + 1..].iter().all(|l| l.trim().is_empty() || l.len() - l.trim_start().len() > indent || (lines[h].trim_start().starts_with("- ") && l.len() - l.trim_start().len() >= indent + 2))
+        }
+    }
+}
+
+/// the front-matter as `scrut` reads it: rendered with serde_yaml, placed between `---` lines of a Markdown document,
+/// read by `MarkdownParser::parse`. The configuration that comes back must be the one rendered (after the layering
+/// over `default_markdown()` that `parse` applies): every string character for character, in particular the final
+/// line break of a block scalar, also where it is the last entry of the front-matter.
+fn frontmatter_parser_oracle(d: &DocumentConfig, yaml: &str) -> (Vec<(String, String)>, &'static str) {
+    let want = DocumentConfig::default_markdown().with_overrides_from(d);
+    let class = if last_entry_is_block_scalar(yaml) { "C17:frontmatter-last-block-scalar" } else { "C17:frontmatter-through-parser" };
+    match fm_through_parser(yaml) {
+        Ok(got) if got == want => (vec![], "fmp:equal"),
+        other => {
+            // what the serialiser itself loses (reported by `front-matter-oracle`) is not the parser's doing
+            let direct = guarded(|| serde_yaml::from_str::<DocumentConfig>(yaml).ok()).unwrap_or(None).map(|b| DocumentConfig::default_markdown().with_overrides_from(&b));
+            if let (Ok(got), Some(direct)) = (&other, &direct) {
+                if got == direct {
+                    return (vec![], "fmp:serialiser-differs");
+                }
+            }
+            let shown = match &other {
+                Ok(got) => format!("reads back as {}", short(&format!("{got:?}"), 160)),
+                Err(e) => format!("is not read: {}", short(e, 160)),
+            };
+            (vec![(class.to_string(), format!("{} rendered as front-matter {} {}", short(&format!("{d:?}"), 160), short(&format!("{yaml:?}"), 120), shown))], "fmp:differs")
+        }
+    }
+}
+
+fn frontmatter_parser_case(prop: &str, d: &DocumentConfig, shape: &str) -> CaseRec {
+    match guarded(|| serde_yaml::to_string(d)) {
+        Ok(Ok(y)) => {
+            let (fails, tag) = frontmatter_parser_oracle(d, &y);
+            let tags = vec![tag.to_string(), format!("fmp:shape={shape}"), format!("fmp:last-entry-block-scalar={}", last_entry_is_block_scalar(&y))];
+            CaseRec { op: format!("oracle-only fmparse {}", hx(&y)), impl_out: "oracle-only".into(), oracle_fail: keep(prop, fails), nontrivial: y.len() > 3, tags }
+        }
+        _ => CaseRec { op: "oracle-only fmparse -".into(), impl_out: "oracle-only".into(), oracle_fail: vec![], nontrivial: false, tags: vec!["fmp:unserialisable".into()] },
+    }
+}
+
 /// `MarkdownTestCaseGenerator` -> `MarkdownParser`: the config placed on the fence line comes back
 fn fence_case(prop: &str, c: &TestCaseConfig) -> CaseRec {
     let base = TestCaseConfig::default_markdown();
@@ -602,6 +754,12 @@ pub fn run(ctx: &Ctx, prop: &str) {
         let mut r = Rng::fork(ctx.seed, 1705, idx);
         Some(frontmatter_case(prop, &document_config(&mut r)))
     });
+    let n = if ctx.thorough { 120_000 } else { 12_000 };
+    ctx.run_stream("frontmatter-through-parser", n, false, |idx| {
+        let mut r = Rng::fork(ctx.seed, 1707, idx);
+        let (d, shape) = fm_parser_config(&mut r, idx);
+        Some(frontmatter_parser_case(prop, &d, &shape))
+    });
     let n = if ctx.thorough { 100_000 } else { 8_000 };
     ctx.run_stream("fence-embedding-oracle", n, false, |idx| {
         let c = if idx < 768 {
@@ -615,7 +773,7 @@ pub fn run(ctx: &Ctx, prop: &str) {
         Some(fence_case(prop, &c))
     });
     ctx.note("serde_yaml/unsafe-libyaml are trusted: parseFlow is compared with them on rendered one-liners and on grammar-generated flow mappings; inputs containing YAML line-break characters are outside the modelled subset on both sides (canonical answer `outside`)".into());
-    ctx.note("front-matter (serde_yaml block emitter) and the code-fence embedding are checked by oracle on the real code only".into());
+    ctx.note("front-matter (serde_yaml block emitter) and the code-fence embedding are checked by oracle on the real code only; `frontmatter-through-parser` reads the rendered front-matter with MarkdownParser::parse (the lines between the `---` lines), with strings that end in a line break as the last entry and elsewhere".into());
 }
 
 fn unhex_str(h: &str) -> Option<String> {
@@ -695,6 +853,25 @@ pub fn replay(prop: &str, op: &str) -> bool {
             let back = humantime::parse_duration(&t);
             println!("{d:?} -> {t:?} -> {back:?}");
             matches!(back, Ok(b) if b == d)
+        }
+        ["oracle-only", "fmparse", h] => {
+            let yaml = String::from_utf8_lossy(&unhex(h)).to_string();
+            let direct = guarded(|| serde_yaml::from_str::<DocumentConfig>(&yaml).ok()).unwrap_or(None);
+            println!("front-matter (serde_yaml::to_string of a DocumentConfig): {yaml:?}\ndocument: {:?}", fm_document(&yaml));
+            match direct {
+                None => {
+                    println!("serde_yaml::from_str does not read the text back");
+                    false
+                }
+                Some(d) => {
+                    println!("serde_yaml::from_str -> {d:?}\nMarkdownParser::parse  -> {:?}", fm_through_parser(&yaml));
+                    let (fails, _) = frontmatter_parser_oracle(&d, &yaml);
+                    for (class, what) in keep(prop, fails.clone()) {
+                        println!("[{class}] {what}");
+                    }
+                    fails.is_empty()
+                }
+            }
         }
         ["durparse", h] => {
             let text = String::from_utf8_lossy(&unhex(h)).to_string();
